@@ -54,6 +54,7 @@ fn env_value(c: &str) -> &'static str {
         "looks_num" => "007",
         "looks_null" => "null",
         "percent_at" => "%x @y &z *w",
+        "combining" => "cafe\u{301} \u{939}\u{93f}\u{928}\u{94d}\u{926}\u{940}",
         other => tool_error(&format!("unknown env class {other}")),
     }
 }
